@@ -79,6 +79,27 @@ func (e *Enc) Run() (err error) {
 			e.assume("(> " + e.vals[fn.Params[0]].L[0] + " 0)")
 		}
 	}
+	// type-level lock flags ("(T).mu" in a guarded declaration): symbolic at entry, so
+	// that `requires heldany(T.mu)` can constrain them
+	{
+		var keys []string
+		for _, g := range e.DB.Guards {
+			for _, m := range g.Mutexes {
+				if strings.HasPrefix(m, "(") {
+					mm := strings.TrimPrefix(m, "(")
+					if k := strings.Index(mm, ")."); k > 0 {
+						keys = append(keys, "b:anyheld:"+g.Pkg+"."+mm[:k]+"."+mm[k+2:])
+					}
+				}
+			}
+		}
+		sort.Strings(keys)
+		for _, k := range keys {
+			if _, ok := st.ghost[k]; !ok {
+				st.ghost[k] = e.declare(e.freshName("anyheld0"), "Bool")
+			}
+		}
+	}
 	e.entry = st.clone()
 	e.entry.heap = st.heap // share lazily created initial arrays
 	e.pc[fn.Blocks[0]] = "true"
